@@ -130,7 +130,11 @@ def run(ctx) -> None:
     pm = prog.func(f"{CLS}.publish_message")
     ctx.analysed(pm)
     g = cfg_of(pm)
-    loops = [n for n in g.nodes if n.kind == "for" and norm(n.ast.iter) == "subscriptions"]
+    # the subscription list: the local assigned from _get_subscriptions_for_topic(...) (by role)
+    subs_assign = [n for n in g.nodes if n.kind == "stmt" and isinstance(n.ast, ast.Assign) and isinstance(n.ast.value, ast.Call)
+                   and call_attr(n.ast.value) == "_get_subscriptions_for_topic" and isinstance(n.ast.targets[0], ast.Name)]
+    subs_var = subs_assign[0].ast.targets[0].id if subs_assign else None
+    loops = [n for n in g.nodes if n.kind == "for" and subs_var is not None and norm(n.ast.iter) == subs_var]
     posts = [n for n in g.nodes if any(call_attr(c) == "_post_webpush" for c in n.calls())]
     if len(loops) != 1 or len(posts) != 1:
         raise AnchorError("publish_message: subscription loop / _post_webpush not recognised")
@@ -153,8 +157,7 @@ def run(ctx) -> None:
         else:
             ctx.fail("R33c", pm, t.ast, inst, "the contributor a NEW_CONTRIBUTOR notification is about can receive it" if p is not None
                      else "the exclusion is not tied to the NEW_CONTRIBUTOR topic", p)
-    srcs = [n for n in g.nodes if n.kind == "stmt" and isinstance(n.ast, ast.Assign) and norm(n.ast.targets[0]) == "subscriptions"]
-    if srcs and call_attr(srcs[0].ast.value) == "_get_subscriptions_for_topic":
+    if subs_assign:
         ctx.ok("R33c", "publish_message iterates _get_subscriptions_for_topic(topic, process_unit, ...)")
     else:
         ctx.fail("R33c", pm, pm.node, "publish_message iterates _get_subscriptions_for_topic(topic, process_unit, ...)",
